@@ -121,6 +121,22 @@ class DetectionItemTransformation(PreprocessingTransformation):
     ) -> (SigmaDetection | SigmaDetectionItem) | None:
         """Apply transformation on detection item."""
 
+    @classmethod
+    def _inherit_applied_processing_items(
+        cls, replaced: SigmaDetectionItem, replacement: SigmaDetection | SigmaDetectionItem
+    ) -> None:
+        """
+        Detection items that replace another one stand for it: the processing items applied to the
+        replaced detection item were applied to them too.
+        """
+        if replacement is replaced:
+            return
+        if isinstance(replacement, SigmaDetection):
+            for item in replacement.detection_items:
+                cls._inherit_applied_processing_items(replaced, item)
+        else:
+            replacement.applied_processing_items.update(replaced.applied_processing_items)
+
     def apply_detection(self, detection: SigmaDetection) -> None:
         for i, detection_item in enumerate(detection.detection_items):
             if isinstance(detection_item, SigmaDetection):  # recurse into nested detection items
@@ -132,6 +148,7 @@ class DetectionItemTransformation(PreprocessingTransformation):
                 ) and (r := self.apply_detection_item(detection_item)) is not None:
                     if isinstance(r, SigmaDetectionItem):
                         r.disable_conversion_to_plain()
+                    self._inherit_applied_processing_items(detection_item, r)
                     detection.detection_items[i] = r
                     self.processing_item_applied(r)
 
@@ -213,6 +230,7 @@ class FieldMappingTransformationBase(DetectionItemTransformation):
                         # with the current values. Disable conversion to prevent to_plain()
                         # from producing stale output.
                         r.disable_conversion_to_plain()
+                    self._inherit_applied_processing_items(detection_item, r)
                     detection.detection_items[i] = r
                     self.processing_item_applied(r)
 
